@@ -34,6 +34,23 @@ theorem allGe_antisymm (l r : List Rat) (hlen : l.length = r.length)
         simpa using this) (by simpa [allGe] using hge.2)
       rw [hab, this]
 
+/-- pointwise `l ≤ r` means the crossing test of the constructor does not fire -/
+theorem no_cross (l r : List Rat) (hlen : l.length = r.length)
+    (hle : ∀ i (h : i < l.length), l[i] ≤ r[i]'(by omega)) :
+    (l.zip r).any (fun p => decide (p.1 > p.2)) = false := by
+  induction l generalizing r with
+  | nil => simp
+  | cons a t ih =>
+    cases r with
+    | nil => simp
+    | cons b u =>
+      have h0 := hle 0 (by simp)
+      simp only [List.getElem_cons_zero] at h0
+      simp only [List.zip_cons_cons, List.any_cons, Bool.or_eq_false_iff, decide_eq_false_iff_not, not_lt]
+      refine ⟨h0, ih u (by simpa using hlen) (fun i h => by
+        have := hle (i + 1) (by simpa using h)
+        simpa using this)⟩
+
 /-- the array-form constructor accepts a well-formed pair unchanged -/
 theorem mk_arr_ok (n : Nat) (l r : List Rat) (hl : l.length = n) (hr : r.length = n)
     (sl : l.Pairwise (· ≤ ·)) (sr : r.Pairwise (· ≤ ·))
@@ -42,11 +59,12 @@ theorem mk_arr_ok (n : Nat) (l r : List Rat) (hl : l.length = n) (hr : r.length 
   have hlen : l.length = r.length := by omega
   have il := isIncreasing_of_sorted l sl
   have ir := isIncreasing_of_sorted r sr
+  have nc := no_cross l r hlen hle
   by_cases hge : allGe l r = true
   · have e := allGe_antisymm l r hlen hle hge
     subst e
-    simp [mk, hge, boundSteps, hl, il, bind, Except.bind]
-  · simp [mk, hlen, hge, boundSteps, hl, hr, il, ir, bind, Except.bind]
+    simp [mk, hge, boundSteps, hl, il, nc, bind, Except.bind]
+  · simp [mk, hlen, hge, boundSteps, hl, hr, il, ir, nc, bind, Except.bind]
 
 /-- `left[i] ≤ right[i]` for the Frechet rule on well-formed operands -/
 theorem frechetRaw_le (op : Rat → Rat → Rat)
